@@ -137,6 +137,7 @@ theorem wstep_none (s : State) (w pick : Nat) (h : s.workers.all (fun x => inert
     | atLoader => rw [hp] at this; simp [inert] at this
     | gotUpdates a b c => rw [hp] at this; simp [inert] at this
     | inHook a b => rw [hp] at this; simp [inert] at this
+    | preFinish e => rw [hp] at this; simp [inert] at this
 
 theorem extract_none (s : State) (p : Peer)
     (h : s.mqs.all (fun q => q.inflight.isSome || (match q.next with | none => true | some b => b.empty)) = true) :
